@@ -281,7 +281,7 @@ PROPS = {
     "C10": {"models": [txm("Recv"), txm("Recv2", "setups/tx.json"), txm("Recv3"), txm("RecvP", "setups/tx.json")] + RECV_MODELS, "drivers": ADMIN_DRIVERS + LIQ_DRIVERS + RECV_DRIVERS + KAMINO_DRIVERS, "nontrivial": tx_nontrivial,
             "rule": "each instruction list executed as one atomic transaction on the real program is one evaluation; all are non-trivial; distinct by (instruction list, result)",
             "min_nontrivial": 1000},
-    "C11": {"models": [txm("Flash"), txm("Flash3"), txm("FlashW")] + FLASH_MODELS, "drivers": ADMIN_DRIVERS, "nontrivial": tx_nontrivial,
+    "C11": {"models": [txm("Flash"), txm("Flash3"), txm("FlashW"), txm("Flash6")] + FLASH_MODELS, "drivers": ADMIN_DRIVERS, "nontrivial": tx_nontrivial,
             "rule": "each instruction list executed as one atomic transaction on the real program is one evaluation; all are non-trivial; distinct by (instruction list, result)",
             "min_nontrivial": 1000},
     "C12": risk_prop2(["configure_bank", "configure_interest", "configure_limits", "configure_emode", "clone_emode", "setup_emissions", "update_emissions",
